@@ -94,7 +94,7 @@ fn gen_set(g: &mut G) -> Set {
         6 => Set::Proxy(g.chance(1, 2)),
         7 => Set::Charset(g.below(3) as u8),
         8 => Set::Compression(g.chance(1, 2)),
-        _ => Set::Header((*g.pick(&["Accept", "accept", "User-Agent", "X-A", "x-a", "X-B"])).to_string(), (*g.pick(&["v1", "v2", "text/html", "agent/9"])).to_string(), g.chance(1, 3)),
+        _ => Set::Header((*g.pick(&["Accept", "accept", "User-Agent", "X-A", "x-a", "X-B", "Accept-Encoding"])).to_string(), (*g.pick(&["v1", "v2", "text/html", "agent/9", "br"])).to_string(), g.chance(1, 3)),
     }
 }
 
